@@ -503,6 +503,48 @@ def run(chk):
             chk.fail("stale-after-extension:" + name, f"{name}: used in a computation, then extended through its add_* methods: the next computation differs from the one "
                      f"with a freshly built equal object by {np.abs(second - want2).max():.2e}", info)
 
+    # ---- (b4') a SystemChain extended after use through EACH of its six add_* methods, one at a time (a term added by one method
+    # must not depend on another method being called as well) ----------------------------------------------------------------
+    Lsite = -1j * (np.kron(O, np.eye(2)) - np.kron(np.eye(2), O.T))
+    Lnn = -1j * (np.kron(np.kron(SX, SZ), np.eye(4)) - np.kron(np.eye(4), np.kron(SX, SZ).T))
+    # library layout of two-site superoperators: site-major Liouville indices
+    Lnn = Lnn.reshape(2, 2, 2, 2, 2, 2, 2, 2).transpose(0, 2, 1, 3, 4, 6, 5, 7).reshape(16, 16)
+    MUT = {"add_site_hamiltonian": lambda c_: c_.add_site_hamiltonian(1, O), "add_site_liouvillian": lambda c_: c_.add_site_liouvillian(1, Lsite),
+           "add_site_dissipation": lambda c_: c_.add_site_dissipation(0, SX + 1j * SY, 0.3), "add_nn_hamiltonian": lambda c_: c_.add_nn_hamiltonian(0, SY, SX),
+           "add_nn_liouvillian": lambda c_: c_.add_nn_liouvillian(0, Lnn), "add_nn_dissipation": lambda c_: c_.add_nn_dissipation(0, SX + 1j * SY, SZ, 0.4)}
+    for name, mut in MUT.items():
+        info = {"extended_after_use": "SystemChain." + name}
+        chk.search_cases += 1
+        chk.count("extended_after_use")
+        chk.case(info, ("extended-chain", name))
+
+        def use_c(chain_):
+            p_ = oqupy.PtTebd(oqupy.AugmentedMPS([rho, rho.conj()]), chain_, [None, None], oqupy.PtTebdParameters(dt=0.1, order=2, epsrel=1e-8), dynamics_sites=[0, 1, (0, 1)])
+            r_ = p_.compute(2, progress_type="silent")
+            return np.concatenate([np.array(r_["dynamics"][k_].states).reshape(-1) for k_ in (0, 1, (0, 1))])
+
+        def build_c(full):
+            chain_ = oqupy.SystemChain([2, 2])
+            chain_.add_site_hamiltonian(0, H)
+            chain_.add_nn_hamiltonian(0, SX, SZ)
+            if full:
+                mut(chain_)
+            return chain_
+        try:
+            shared = build_c(False)
+            first = quiet(use_c, shared)
+            mut(shared)
+            second = quiet(use_c, shared)
+            want1, want2 = quiet(use_c, build_c(False)), quiet(use_c, build_c(True))
+        except Exception as ex:
+            chk.fail("extended-raises", f"SystemChain.{name}: raises {ex!r}", info)
+            continue
+        if np.allclose(want1, want2, rtol=0, atol=1e-6):
+            chk.disagree("extension harness", f"SystemChain.{name}: the added term does not change the result")
+        if not np.allclose(first, want1, rtol=0, atol=1e-9) or not np.allclose(second, want2, rtol=0, atol=1e-9):
+            chk.fail("stale-after-extension:SystemChain", f"SystemChain used in a computation, then extended through {name} alone: the next computation differs from the one "
+                     f"with a freshly built equal chain by {np.abs(second - want2).max():.2e}", info)
+
     # ---- (b5) a process tensor whose tensors are replaced (set_mpo_tensor / set_cap_tensor) after it has been read and used:
     # every later answer (accessors, dynamics) is that of a freshly built object holding the current tensors ----------------
     for rank in (3, 4):
